@@ -199,6 +199,11 @@ def drive_spline_eval_funcs(m, tier, part=0):
                 y = np.full(len(X), np.nan)
                 m.nu_eval_spline_1d_vector(X, kn, d, c, y, der)
                 yield ('nu_eval_spline_1d_vector', d, per, der), y
+                # the points of an array are in no particular order: decreasing and scrambled arrays
+                for oname, o in (('decreasing', np.arange(len(X))[::-1]), ('scrambled', np.argsort((np.arange(len(X)) * 7919 + 13) % 10007))):
+                    y = np.full(len(X), np.nan)
+                    m.nu_eval_spline_1d_vector(np.ascontiguousarray(X[o]), kn, d, c, y, der)
+                    yield ('nu_eval_spline_1d_vector', d, per, der, oname), y
     br2 = [0.0, 2.0, 3.0, 5.0]
     Y = _xalpha(br2)
     for (d1, p1), (d2, p2) in itertools.product(((1, False), (2, True), (3, False), (5, True)), ((2, False), (3, True), (4, False))):
@@ -213,6 +218,13 @@ def drive_spline_eval_funcs(m, tier, part=0):
             zv = np.full(xx.size, np.nan)
             m.nu_eval_spline_2d_vector(xx, yy, k1, d1, k2, d2, C, zv, e1, e2)
             yield ('nu_eval_spline_2d_vector', d1, p1, d2, p2, e1, e2), zv
+            o = np.argsort((np.arange(xx.size) * 7919 + 13) % 10007)
+            zv = np.full(xx.size, np.nan)
+            m.nu_eval_spline_2d_vector(np.ascontiguousarray(xx[o]), np.ascontiguousarray(yy[o]), k1, d1, k2, d2, C, zv, e1, e2)
+            yield ('nu_eval_spline_2d_vector', d1, p1, d2, p2, e1, e2, 'scrambled'), zv
+            z = np.full((len(X), len(Y)), np.nan)
+            m.nu_eval_spline_2d_cross(np.ascontiguousarray(X[::-1]), np.ascontiguousarray(Y[::-1]), k1, d1, k2, d2, C, z, e1, e2)
+            yield ('nu_eval_spline_2d_cross', d1, p1, d2, p2, e1, e2, 'decreasing'), z
             sc = np.array([m.nu_eval_spline_2d_scalar(float(x), float(y), k1, d1, k2, d2, C, e1, e2) for x in X[::3] for y in Y[::2]])
             yield ('nu_eval_spline_2d_scalar', d1, p1, d2, p2, e1, e2), sc
 
@@ -242,6 +254,9 @@ def drive_cubic_uniform_spline_eval_funcs(m, tier, part=0):
             y = np.full(len(X), np.nan)
             m.cu_eval_spline_1d_vector(X, kn, 3, c, y, der)
             yield ('cu_eval_spline_1d_vector', nc, dx, der), y
+            y = np.full(len(X), np.nan)
+            m.cu_eval_spline_1d_vector(np.ascontiguousarray(X[::-1]), kn, 3, c, y, der)
+            yield ('cu_eval_spline_1d_vector', nc, dx, der, 'decreasing'), y
     for (a, b) in (((0.0, 1.0, 3), (0.3, 0.1, 4)), ((-3.0, 2.0, 7), (0.0, 0.25, 5)), ((0.0, 0.25, 5), (0.0, 1.0, 3)), ((0.0, 2 * math.pi / 33, 33), (0.1, 14.4 / 13, 13))):
         k1 = np.array([a[0], a[0] + a[1] * a[2], a[1], float(a[2])])
         k2 = np.array([b[0], b[0] + b[1] * b[2], b[1], float(b[2])])
